@@ -526,6 +526,8 @@ type Proxy struct {
 	mu     sync.Mutex
 	relays []*relay
 	Refuse bool
+	// DelayMs: a slow link - an accepted connection is held this long before it is relayed to the target
+	DelayMs int
 	closed bool
 	Accept []time.Duration // times of accepted TCP connections
 }
@@ -549,35 +551,68 @@ func (p *Proxy) serve() {
 		p.mu.Lock()
 		p.Accept = append(p.Accept, time.Since(p.f.start))
 		refuse := p.Refuse
-		target := p.f.Nodes[p.Y].Port
-		id := len(p.relays)
+		delay := p.DelayMs
 		p.mu.Unlock()
 		if refuse {
 			c.Close()
 			continue
 		}
-		d, err := net.DialTimeout("tcp", fmt.Sprintf("127.0.0.1:%d", target), time.Second)
-		if err != nil {
-			c.Close()
+		if delay > 0 {
+			go func() {
+				time.Sleep(time.Duration(delay) * time.Millisecond)
+				p.relay(c)
+			}()
 			continue
 		}
-		r := &relay{id: id, a: c, b: d, at: time.Since(p.f.start)}
-		p.mu.Lock()
-		p.relays = append(p.relays, r)
-		p.mu.Unlock()
-		go func() {
-			_, _ = io.Copy(d, c)
-			if !r.half.Load() {
-				r.close()
-			}
-		}()
-		go func() {
-			_, _ = io.Copy(c, d)
-			if !r.half.Load() {
-				r.close()
-			}
-		}()
+		p.relay(c)
 	}
+}
+
+// relay connects an accepted connection with the target hub and copies in both directions.
+func (p *Proxy) relay(c net.Conn) {
+	p.mu.Lock()
+	target := p.f.Nodes[p.Y].Port
+	id := len(p.relays)
+	closed := p.closed
+	p.mu.Unlock()
+	if closed {
+		c.Close()
+		return
+	}
+	d, err := net.DialTimeout("tcp", fmt.Sprintf("127.0.0.1:%d", target), time.Second)
+	if err != nil {
+		c.Close()
+		return
+	}
+	r := &relay{id: id, a: c, b: d, at: time.Since(p.f.start)}
+	p.mu.Lock()
+	if p.closed {
+		p.mu.Unlock()
+		c.Close()
+		d.Close()
+		return
+	}
+	p.relays = append(p.relays, r)
+	p.mu.Unlock()
+	go func() {
+		_, _ = io.Copy(d, c)
+		if !r.half.Load() {
+			r.close()
+		}
+	}()
+	go func() {
+		_, _ = io.Copy(c, d)
+		if !r.half.Load() {
+			r.close()
+		}
+	}()
+}
+
+// SetDelay makes the link slow: connections accepted from now on are held ms before they are relayed.
+func (p *Proxy) SetDelay(ms int) {
+	p.mu.Lock()
+	p.DelayMs = ms
+	p.mu.Unlock()
 }
 
 func (r *relay) close() {
